@@ -764,6 +764,72 @@ def r12_flags_survive_the_round_trip(ctx, rep):
            f"{' and '.join(flags)}", py.nloc(stores[0].node) if stores else py.nloc(o2d))
 
 
+def _written_link_language(py, rx):
+    """the language of `str(entity)` for a linked entity, read off the f-string in FortranBase.__str__: constant parts literally, a
+    slot that sits between quotes is anything but that quote, any other slot is any text (names contain `<`, `>`, blanks:
+    `operator(>)`, `<em>unnamed</em>`)"""
+    fn = py.func("FortranBase.__str__")
+    out = []
+    for r in astq.returns(fn):
+        for j in ast.walk(r):
+            if isinstance(j, ast.JoinedStr) and any(isinstance(v, ast.Constant) and "<a" in str(v.value) for v in j.values):
+                parts, prev = [], ""
+                for v in j.values:
+                    if isinstance(v, ast.Constant):
+                        parts.append(rx.lit(str(v.value)))
+                        prev = str(v.value)
+                    else:
+                        q = prev[-1:] if prev[-1:] in ("'", '"') else ""
+                        parts.append(rx.plus(rx.chars(rx.UNIVERSE - {q, "\n"})) if q else rx.star(rx.chars(rx.UNIVERSE - {"\n"})))
+                out.append((rx.cats(*parts), j))
+    return out
+
+
+def r13_written_links_are_read_back(ctx, rep):
+    """Graph nodes of external entities are made from `str(entity)` - the `<a href='URL'>name</a>` text - and BaseNode takes URL and
+    name back out of it with a pattern.  Writer and reader must agree: every text the writer can produce is matched, whatever the
+    URL contains (the URL of a project given by a local path is a file-system path: blanks, `>`), or the node keeps the markup as
+    its name, has no link, and graphviz may reject the label and end the run.  Decided as a language inclusion."""
+    py, rx = ctx.py, ctx.rx
+    bn = py.ifunc("BaseNode.__init__")
+    written = _written_link_language(py, rx)
+    if not written:
+        raise AnalysisError("FortranBase.__str__: the link text was not found")
+    readers = []
+    for c in ast.walk(bn):
+        if isinstance(c, ast.Call) and isinstance(c.func, ast.Attribute) and c.func.attr in ("match", "fullmatch", "search") and \
+                isinstance(c.func.value, ast.Name) and c.args and isinstance(c.args[0], ast.Name) and c.args[0].id == "obj":
+            key = next((k for k in ctx.regexes if k.split(".")[-1] == c.func.value.id and k.startswith("graphs.")), None)
+            if key is not None:
+                readers.append((key, c))
+    if not readers:
+        raise AnalysisError("BaseNode.__init__: no pattern is applied to the entity text")
+    for key, c in readers:
+        pat, flags, node, _ = ctx.regexes[key]
+        try:
+            lang = {"match": rx.match_lang, "fullmatch": rx.full, "search": rx.search_lang}[c.func.attr](pat, flags)
+            for w_lang, j in written:
+                w = rx.subset_witness(w_lang, lang)
+                rep.ob(f"{key} reads back every link FortranBase.__str__ writes", w is None,
+                       f"L({ast.unparse(j)[:50]}) is included in L({key})" if w is None else
+                       f"`{w}` is written for an entity but not matched: the node of an external entity whose URL looks like this "
+                       f"keeps the whole markup as its name and has no link", py.nloc(node))
+        except (rx.Unsupported, rx.Budget) as e:
+            raise AnalysisError(f"{key}: {e}")
+
+
+def r14_paths_resolved(ctx, rep):
+    """local paths of external projects are normalised like every other path (shared with C19.R3)"""
+    from . import c19
+    c19.r3_resolved_paths(ctx, rep)
+
+
+def r15_defaults_do_not_overwrite(ctx, rep):
+    """built-in module links are merged under the configured ones, after validation (shared with C15.R16)"""
+    from . import c15
+    c15.r16_defaults_do_not_overwrite(ctx, rep)
+
+
 RULES = [
     RuleSpec("C16.R6", r6_fresh_objects_and_node_urls, "one object per exported entity; external node URLs unchanged", floor=1),
     RuleSpec("C16.R1", r1_error_coverage, "exception coverage of the external load path", floor=5),
@@ -777,4 +843,7 @@ RULES = [
     RuleSpec("C16.R10", r10_cached_description, "memoised loaders do not share containers that callers edit", floor=1),
     RuleSpec("C16.R11", r11_names_compared_case_insensitively, "names are lower-cased on both sides of a comparison", floor=1),
     RuleSpec("C16.R12", r12_flags_survive_the_round_trip, "boolean attributes survive export and re-import", floor=1),
+    RuleSpec("C16.R13", r13_written_links_are_read_back, "the link text of an entity is read back by the graph nodes (language inclusion)", floor=1),
+    RuleSpec("C16.R14", r14_paths_resolved, "local paths of external projects are normalised like every other path (shared with C19.R3)", floor=1),
+    RuleSpec("C16.R15", r15_defaults_do_not_overwrite, "built-in module links are merged under the configured ones, after validation (shared with C15.R16)", floor=1),
 ]
